@@ -429,13 +429,15 @@ PROPS["C14"] = dict(
                 "in all three I/O modes with verify_checksums = true and read through the column reader (and, sampled, the batch reader): an error must be reported and only rows "
                 "stored before the damaged page may be delivered (none for a dictionary page). CRC-32 detects every burst <= 32 bits, so a clean read is a certain violation. The "
                 "undamaged copy must read without error; with verification disabled a sample of the damaged copies is read under ASan (memory safety only). The checksum function "
-                "itself is compared with zlib for every length 0..300 (thorough ..1030) x alignment 0..15, random buffers up to 1 MiB and multi-way incremental splits."),
+                "itself is compared with zlib for every length 0..300 (thorough ..1030) x alignment 0..15, random buffers up to 1 MiB and multi-way incremental splits, and - "
+                "the lookup tables being built lazily - for the first checksums of a freshly exec'ed process computed by 2..8 threads released by a barrier (first_use)."),
     level_note="exhaustive over bit positions only for bodies <= 48 bytes of the generated files; files and larger-body positions are sampled",
     technique="fault injection enumerated over page-body bit positions (per generated file) + property-based testing of the CRC function against zlib",
     rule=("damage case = (file, read batch size, seed); evaluations count damaged reads (file x damage x mode). Non-trivial: the file has a damaged page that is not the first "
-          "page of its chunk, or a dictionary page, or a compressed body. crc_fn case = (bytes, alignment, cut points); non-trivial: length >= 8 and not a multiple of 8."),
+          "page of its chunk, or a dictionary page, or a compressed body. crc_fn case = (bytes, alignment, cut points); non-trivial: length >= 8 and not a multiple of 8. "
+          "first_use case = (thread count, buffer seed, start skew); each is one fresh process."),
     assumptions=["only pages that carry a CRC are damaged (carquet's writer always writes one)", "damage is confined to page bodies; headers and footer are out of this property's scope"],
-    engines=[pbt("c14_crc", libs=["rapidcheck", "snappy", "lz4"], quick=dict(cases=120, size=60, enum=1, procs=8), thorough=dict(cases=3000, size=100, enum=2, procs=16))],
+    engines=[pbt("c14_crc", libs=["rapidcheck", "snappy", "lz4"], confirm_tries=8, quick=dict(cases=120, size=60, enum=1, procs=8), thorough=dict(cases=3000, size=100, enum=2, procs=16))],
     min_evaluations=dict(quick=100000, thorough=2000000),
 )
 
@@ -448,12 +450,15 @@ PROPS["C18"] = dict(
                 "code unless the independent reader accepts the prefix as a complete file; (sink) a fopencookie FILE* whose write callback fails (0 return or short write) once a "
                 "byte budget is exhausted, for every budget 0..len+1 (files up to 1500 bytes) under unbuffered, line-buffered and fully buffered streams: budget < len requires a "
                 "non-OK status from some writer call, budget >= len requires all OK and byte-identical sink contents; (stdio) for the path-based writer the n-th fwrite/fflush/fclose "
-                "issued by carquet fails (link-time --wrap), every n; (abort) carquet_writer_abort after every prefix of the call script leaves no file, no open descriptor "
-                "(/proc/self/fd count) and no leak (LeakSanitizer)."),
+                "issued by carquet fails (link-time --wrap), every n; (pipe) the sink is the write end of a pipe (a stream with a real descriptor) drained by a consumer thread - "
+                "blocking / non-blocking, 64 KiB / 4 KiB pipe, the writing thread interrupted by a periodic signal without SA_RESTART - including single row groups of 270-720 KB: "
+                "if every call including close returns OK the consumer holds exactly the fault-free file; (abort) carquet_writer_abort after every prefix of the call script "
+                "leaves no file, no open descriptor (/proc/self/fd count) and no leak (exact heap balance)."),
     level_note="exhaustive over cut positions / byte budgets / stream-operation indices / abort points of each generated file; the files themselves are sampled",
     technique="fault injection enumerated over cut positions, sink byte budgets, stdio call indices and abort points of generated write histories (rapidcheck generates the histories)",
     rule=("evaluations count (file, fault point[, mode]) executions. Non-trivial: prefixes - a cut inside the footer, between footer and length or inside the trailing magic; sink - a "
-          "failure within the last 4096 bytes under full buffering (absorbed by stdio until close); stdio - at least 4 stream operations; abort - at least 2 calls."),
+          "failure within the last 4096 bytes under full buffering (absorbed by stdio until close); stdio - at least 4 stream operations; abort - at least 2 calls; "
+          "pipe - a file above 64 KiB for which at least two of the eight sink variants ended with all calls OK."),
     assumptions=["open_buffer is never given size 0 with a NULL pointer; a zero-length prefix is passed as a valid pointer of size 0"],
     engines=[pbt("c18_truncation", libs=["rapidcheck", "snappy", "lz4"], ldflags=["-Wl,--wrap=fwrite,--wrap=fflush,--wrap=fclose"], quick=dict(cases=200, size=60, procs=8), thorough=dict(cases=4000, size=100, procs=16))],
     min_evaluations=dict(quick=20000, thorough=400000),
